@@ -383,7 +383,17 @@ func strEqTerm(fr *frame, x, y value) *term.Term {
 			cs = append(cs, blobEqTerm(fr, p.blob, q.blob))
 			i, j = i+1, j+1
 		default:
-			// blob against literal/symbolic bytes
+			// blob against literal/symbolic bytes: decided only where the encoding's first
+			// byte already rules the literal out (JSON of a struct never equals "begin_failure")
+			bl, other, k := p, b, j
+			if q.kind == sBlob {
+				bl, other, k = q, a, i
+			}
+			if bl.kind == sBlob && other[k].kind == sLit {
+				if fc := jsonFirstChars(fr, bl.blob); fc != "" && !strings.ContainsRune(fc, rune(other[k].c)) {
+					return term.False
+				}
+			}
 			panic(unsupported("string equality: opaque codec output against other bytes"))
 		}
 		if len(cs) > 0 && cs[len(cs)-1].IsFalse() {
@@ -637,4 +647,44 @@ func strSplit(fr *frame, v value, sep string, n int) []value {
 	}
 	out = append(out, mkStr(cur))
 	return out
+}
+
+// jsonFirstChars returns the bytes a JSON blob of this type can start with ("" = unknown).
+func jsonFirstChars(fr *frame, b *blobCell) string {
+	if b.codec != "json" || b.typ == nil {
+		return ""
+	}
+	t := b.typ
+	for depth := 0; depth < 4; depth++ {
+		for _, m := range []string{"MarshalJSON", "MarshalText"} {
+			if fr.i.prog.MethodSets.MethodSet(t).Lookup(nil, m) != nil || fr.i.prog.MethodSets.MethodSet(types.NewPointer(t)).Lookup(nil, m) != nil {
+				return ""
+			}
+		}
+		switch u := t.Underlying().(type) {
+		case *types.Pointer:
+			t = u.Elem()
+			continue
+		case *types.Struct, *types.Map:
+			return "{n"
+		case *types.Slice:
+			if bt, ok := u.Elem().Underlying().(*types.Basic); ok && bt.Kind() == types.Uint8 {
+				return "\"n"
+			}
+			return "[n"
+		case *types.Array:
+			return "["
+		case *types.Basic:
+			switch {
+			case u.Info()&types.IsString != 0:
+				return "\""
+			case u.Info()&types.IsBoolean != 0:
+				return "tf"
+			case u.Info()&types.IsNumeric != 0:
+				return "-0123456789"
+			}
+		}
+		return ""
+	}
+	return ""
 }
